@@ -17,7 +17,7 @@ use script::*;
 fn c13_offsets_blk() {
     assert!(core::mem::offset_of!(BlkConfig, capacity_low) == 0, "C13: offset_of!(BlkConfig, capacity_low) != 0");
     assert!(core::mem::offset_of!(BlkConfig, capacity_high) == 4, "C13: offset_of!(BlkConfig, capacity_high) != 4");
-    assert!(size_of::<ReadOnly<u32>>() == 4 && align_of::<ReadOnly<u32>>() == 4);
+    assert!(size_of::<ReadOnly<u32>>() == 4 && align_of::<ReadOnly<u32>>() == 4, "C13: ReadOnly<u32> is not a 4-byte, 4-aligned register");
     let t = ScriptT::any(DeviceType::Block);
     let lo: u32 = read_config!(t, BlkConfig, capacity_low).unwrap();
     let hi: u32 = read_config!(t, BlkConfig, capacity_high).unwrap();
